@@ -1200,7 +1200,8 @@ def cancel_cli_cases(rng, n):
     all but one, any order), a single directory, a non-existent directory among real ones
     or alone, the confirmation declined."""
     out = []
-    kinds = ["multi", "multi-last-unnamed", "single", "missing-mixed", "multi", "declined", "missing-only", "multi-first-unnamed"]
+    kinds = ["multi", "startup", "multi-last-unnamed", "single", "missing-mixed", "startup", "multi", "declined",
+             "missing-only", "multi-first-unnamed"]
     for i in range(n):
         kind = kinds[i % len(kinds)]
         k = rng.choice([2, 3]) if kind != "multi" else rng.choice([2, 3, 3])
@@ -1214,6 +1215,10 @@ def cancel_cli_cases(rng, n):
             named = idx[:-1] if k > 2 else idx[:1]
         elif kind == "multi-first-unnamed":
             named = idx[1:]
+        elif kind == "startup":
+            # the request is placed in the START-UP WINDOW: after `maestro run` stored the study, before
+            # the conductor process initialises -- it must be honoured at the first poll
+            named = idx[:-1] if rng.random() < 0.5 else idx[:]
         elif kind == "single":
             named = [rng.choice(idx)]
         elif kind == "missing-mixed":
@@ -1233,7 +1238,7 @@ def run_cancel_scenario(job):
     shutil.rmtree(d, ignore_errors=True)
     os.makedirs(d)
     gate = os.path.join(d, "gate.open")
-    procs, sdirs = [], []
+    procs, sdirs, starters = [], [], []
     res = {"studies": [], "cancel": None}
     for i, case in enumerate(sc["studies"]):
         sd = os.path.join(d, "s%d" % i)
@@ -1254,18 +1259,23 @@ def run_cancel_scenario(job):
                         "E2E_SCRIPTED": os.path.join(sd, "script.json"), "E2E_GATE": gate,
                         "E2E_GATE_AT": str(sc["gate_at"]), "E2E_GATE_REACHED": os.path.join(sd, "reached")})
         p = None
+        starter = None
         if rc0 == 0:
-            p = subprocess.Popen([PY, LAUNCHER, "conductor", "-t", str(POLL_SLEEP), out], cwd=sd, env=env,
-                                 stdout=open(os.path.join(sd, "conductor.log"), "w"), stderr=subprocess.STDOUT)
+            def starter(sd=sd, out=out, env=env):
+                return subprocess.Popen([PY, LAUNCHER, "conductor", "-t", str(POLL_SLEEP), out], cwd=sd, env=env,
+                                        stdout=open(os.path.join(sd, "conductor.log"), "w"), stderr=subprocess.STDOUT)
+            if sc["kind"] != "startup":
+                p = starter()
         procs.append(p)
+        starters.append(starter)
         res["studies"].append({"store_rc": rc0, "store_tail": tail0[-300:]})
     import time
     t0 = time.time()
-    while time.time() - t0 < 90:
+    while sc["kind"] != "startup" and time.time() - t0 < 90:
         if all(p is None or p.poll() is not None or os.path.exists(os.path.join(sd, "reached")) for p, sd in zip(procs, sdirs)):
             break
         time.sleep(0.05)
-    res["all_reached_gate"] = all(os.path.exists(os.path.join(sd, "reached")) for sd in sdirs)
+    res["all_reached_gate"] = sc["kind"] == "startup" or all(os.path.exists(os.path.join(sd, "reached")) for sd in sdirs)
     # ONE invocation of the real command line
     ghost = os.path.join(d, "no-such-study")
     args = [os.path.join(sdirs[i], "out") for i in sc["named"]]
@@ -1281,6 +1291,8 @@ def run_cancel_scenario(job):
                      "ghost_created": os.path.exists(ghost)}
     with open(gate, "w") as f:
         f.write("open\n")
+    if sc["kind"] == "startup":
+        procs = [st_() if st_ else None for st_ in starters]      # only now do the conductors start
     for p, st, sd in zip(procs, res["studies"], sdirs):
         if p is None:
             st["rc"] = st["store_rc"]
@@ -1362,6 +1374,8 @@ def check_cancel_cli(ck, items=None, pidnum=7, n=None):
                         viol.append("study s%d submitted %r after its cancel request" % (i, later[:2]))
                     if st.get("rc") != 3:
                         viol.append("study s%d was cancelled but its conductor exited %r, not 3" % (i, st.get("rc")))
+                    if sc["kind"] == "startup" and k0 != 0:
+                        viol.append("study s%d: the cancel request placed before the conductor started was not honoured at the first poll" % i)
             else:
                 if cancels:
                     viol.append("study s%d was not named (or the confirmation was declined) but its conductor cancelled its jobs" % i)
